@@ -1,2 +1,119 @@
 From Coq Require Import List NArith Bool.
-From LTV.C12 Require Import Model.
+From LTV.C12 Require Import Model ProofsA ProofsB ProofsC ProofsD.
+Import ListNotations.
+Local Open Scope N_scope.
+
+(* constants re-extracted from /repo (chunk table <= 16384, factor 4, defaults, 90 ms, 2^16, 2^28, 2^40) *)
+Theorem params_ok_now : ProofsA.params_ok = true.
+Proof. exact ProofsA.params_ok_now. Qed.
+Print Assumptions params_ok_now.
+
+(* quota_conservation + split_inv + no_internal_error + "nothing created", for ALL event lists on a
+   ThrottleList that follow the consumers' discipline (tl_inv: outstanding = sum of node quotas,
+   size = |active|+|inactive|, ids distinct, every quota <= 65536, counters below 2^32, disabled =>
+   all zero and nobody inactive). The only reachable throw is Rate::insert's. *)
+Theorem quota_conservation_no_internal_error :
+  forall l t, tl_inv t -> valid_run t l ->
+  (exists t' p, ev_run t l = Ok (t', p) /\ tl_inv t' /\ held t' + p <= held t + grants l)
+  \/ ev_run t l = Err E_rate_insert.
+Proof. exact ProofsD.list_run_spec. Qed.
+Print Assumptions quota_conservation_no_internal_error.
+
+Theorem init_list_inv : tl_inv tl_init.
+Proof. exact ProofsA.tl_init_inv. Qed.
+Print Assumptions init_list_inv.
+
+(* rate bound over any window of events: payload moved under throttling <= burst + granted, with
+   burst = 65536*|nodes| + unallocated + unused-unthrottled at the start of the window *)
+Theorem rate_bound_list :
+  forall l t t' p, tl_inv t -> valid_run t l -> ev_run t l = Ok (t', p) ->
+  p <= cap * N.of_nat (length (nodes t)) + unalloc t + uu t + grants l.
+Proof. exact ProofsD.rate_bound_list. Qed.
+Print Assumptions rate_bound_list.
+
+(* tick_grant: what receive_quota asks for a list with rate r after count microseconds is at most
+   count*r/10^6 (fixed-point fraction rounds down), and at most the tick's own quota *)
+Theorem tick_grant :
+  forall count r, need_of (tick_quota count r) (tick_fraction count) r <= count * r / 1000000.
+Proof. exact ProofsD.tick_grant. Qed.
+Print Assumptions tick_grant.
+
+Theorem tick_quota_exact :
+  forall count r, count * r < w64 -> count * r / 1000000 < w32 -> tick_quota count r = count * r / 1000000.
+Proof. exact ProofsD.tick_quota_exact. Qed.
+Print Assumptions tick_quota_exact.
+
+(* update_quota: grant, carry-over cap of one tick, reactivation *)
+Theorem update_quota_reactivation :
+  forall t q, tl_inv t -> enabled t = true -> q <= Qmax ->
+  exists t' used acts, update_quota t q = Ok (t', used, acts) /\ tl_inv t' /\ enabled t' = true /\
+    held t' <= held t + q /\ minc t' = minc t /\ maxc t' = maxc t /\ uu t' = q /\ unalloc t' <= q /\
+    (inact t' = [] \/ (unalloc t' = 0 /\ exists id qq r, inact t' = (id, qq) :: r /\ qq < minc t)) /\
+    (forall id, In id acts -> exists q1, In (id, q1) (act t') /\ minc t <= q1) /\
+    (forall id qq r, inact t = (id, qq) :: r -> minc t <= qq + unalloc t + uu t -> In id acts).
+Proof. exact ProofsC.update_spec. Qed.
+Print Assumptions update_quota_reactivation.
+
+(* the consumer step: exact accounting, disabled_is_unlimited, deactivation only below min_chunk *)
+Theorem consumer_step :
+  forall t s k want, tl_inv t ->
+  (exists t' ou, consume t s k want = Ok (t', ou) /\ tl_inv t' /\
+                 enabled t' = enabled t /\ minc t' = minc t /\ maxc t' = maxc t /\
+                 held t' <= held t /\
+                 (forall n, ou = OutUsed n -> enabled t = true -> held t' + n = held t) /\
+                 (enabled t = false -> in_list t k = true -> ou = OutUsed (N.min int32_max want)) /\
+                 (ou = OutDeact -> exists q, lookup k (act t) = Some q /\ q + unalloc t < minc t))
+  \/ consume t s k want = Err E_rate_insert.
+Proof. exact ProofsC.consume_spec. Qed.
+Print Assumptions consumer_step.
+
+Theorem disabled_is_unlimited :
+  forall t k, enabled t = false -> node_quota t k = Ok int32_max.
+Proof. exact ProofsD.disabled_quota. Qed.
+Print Assumptions disabled_is_unlimited.
+
+(* erase never throws (both internal_errors of ThrottleList::erase are unreachable) *)
+Theorem erase_never_throws :
+  forall t id, tl_inv t ->
+  exists t', tl_erase t id = Ok t' /\ tl_inv t' /\ held t' = held t /\
+             enabled t' = enabled t /\ minc t' = minc t /\ maxc t' = maxc t.
+Proof. exact ProofsB.erase_spec. Qed.
+Print Assumptions erase_never_throws.
+
+(* node_used with ANY byte count (buffered-data paths included) never throws "used too much quota"
+   and never underflows *)
+Theorem node_used_never_underflows :
+  forall t s id n, tl_inv t -> n < w32 ->
+  (exists t', node_used t s id n = Ok t' /\ tl_inv t' /\
+              held t' <= held t /\ held t <= held t' + n /\
+              enabled t' = enabled t /\ minc t' = minc t /\ maxc t' = maxc t /\
+              ids (act t') = ids (act t) /\ ids (inact t') = ids (inact t) /\
+              (forall q, enabled t = true -> lookup id (act t) = Some q -> n <= q + unalloc t ->
+                         held t' + n = held t))
+  \/ node_used t s id n = Err E_rate_insert.
+Proof. exact ProofsB.node_used_spec. Qed.
+Print Assumptions node_used_never_underflows.
+
+(* REFUTED on the faithful model (and replayed on the real code): an internal_error IS reachable
+   from an op list a client can produce *)
+Theorem no_internal_error_refuted :
+  exists ops, valid_opsb init ops = true /\ snd (run init ops) = Some E_rate_insert.
+Proof. exact ProofsD.no_internal_error_refuted. Qed.
+Print Assumptions no_internal_error_refuted.
+
+(* REFUTED: a slave limit is not enforced while the root is unlimited *)
+Theorem slave_limit_needs_root_limit_refuted :
+  valid_opsb init witness_slave_unlimited = true /\
+  map snd (fst (run init witness_slave_unlimited)) = [OutOk; OutOk; OutOk; OutUsed 131072; OutUsed 131072] /\
+  (exists x, nth_error (map fst (fst (run init witness_slave_unlimited))) 4 = Some x /\
+             now x = t0 /\ option_map s_rate (nth_error (slaves x) 0) = Some 1000).
+Proof. exact ProofsD.slave_limit_needs_root_limit_refuted. Qed.
+Print Assumptions slave_limit_needs_root_limit_refuted.
+
+(* bounded witness: a slave with rate 0 under a limited root receives nothing in 5 ticks *)
+Theorem slave_rate0_starves_witness :
+  valid_opsb init witness_slave_starves = true /\
+  exists x, last (map (fun p => Some (fst p)) (fst (run init witness_slave_starves))) None = Some x /\
+            option_map (fun s => (inact (s_tl s), held (s_tl s))) (nth_error (slaves x) 0) = Some ([(0, 0)], 0).
+Proof. exact ProofsD.slave_rate0_starves_witness. Qed.
+Print Assumptions slave_rate0_starves_witness.
